@@ -4,6 +4,7 @@ package c20
 
 import (
 	"context"
+	"flag"
 	"fmt"
 	"io"
 	"net/http"
@@ -22,7 +23,11 @@ import (
 )
 
 func init() {
-	klog.LogToStderr(false)
+	fs := flag.NewFlagSet("klog", flag.ContinueOnError)
+	klog.InitFlags(fs)
+	_ = fs.Set("logtostderr", "false")
+	_ = fs.Set("alsologtostderr", "false")
+	_ = fs.Set("stderrthreshold", "FATAL")
 	klog.SetOutput(io.Discard)
 }
 
